@@ -100,3 +100,28 @@ CHECKS["C08"] = dict(
     outside=["more than 3 packets per history", "several SSRCs in the history harness", "a stream whose first sequence number is below the reordering distance (unwrapper floor-at-zero corner)", "report-arrival outside the listed windows"],
     assumptions=["map iteration order fixed (insertion order)", "float->uint16 conversion as go1.24/amd64"],
 )
+
+CHECKS["C09"] = dict(
+    jobs=[
+        dict(pkg="internal/cc", entry="HC09Adapter", params=dict(n=3, kind=0), thorough=dict(params=dict(n=4), timeout=3000)),
+        dict(pkg="internal/cc", entry="HC09Adapter", params=dict(n=3, kind=1), thorough=dict(params=dict(n=4), timeout=3000)),
+    ],
+    bounds=dict(quick="gcc FeedbackAdapter: 3 covered sequence numbers + 1 beyond the declared range, every subset of them known to the history, base 10 or 65534 (wrap), one status-vector chunk (2-bit symbols, padded to 7) with every symbol combination / one run-length chunk of each symbol; symbolic deltas (small 0..255, large int16), sizes, departure times, reference time",
+                thorough="4 covered numbers"),
+    outside=["more than one chunk per feedback", "LRU eviction at size 250 (membership is chosen directly)", "rtpfb history / RFC 8888 path", "feedback produced by the library's own generators (composition)"],
+    assumptions=["container/list executed from SSA", "time.Time 96-bit model"],
+)
+
+CHECKS["C02"] = dict(
+    jobs=[
+        dict(pkg="pkg/rtpfb", entry="HC02ConvertTWCC", params=dict(kind=0)),
+        dict(pkg="pkg/rtpfb", entry="HC02ConvertTWCC", params=dict(kind=1)),
+        dict(pkg="internal/cc", entry="HC02AdapterTWCC", params=dict(kind=0)),
+        dict(pkg="internal/cc", entry="HC02AdapterTWCC", params=dict(kind=1, pad=0)),
+        dict(pkg="internal/cc", entry="HC02AdapterTWCC", params=dict(kind=1, pad=1)),
+    ],
+    bounds=dict(quick="structurally inconsistent but parseable TWCC feedback (status count 0..4, run length 0..12 beyond the count, 7-symbol vector chunks with received padding, exactly the deltas rtcp.Unmarshal would produce) through rtpfb.convertTWCC and the gcc FeedbackAdapter; every index/nil/slice operation is an implicit assertion; a well-formed probe feedback afterwards",
+                thorough="same"),
+    outside=["raw RTP/RTCP byte strings through Attributes.GetRTPHeader/GetRTCPPackets (rtp/rtcp Unmarshal on symbolic buffers)", "outgoing packet sizes", "other readers (see DESIGN)"],
+    assumptions=["the unmarshal post-condition P_U used to build the structured feedback (DESIGN.md C02)"],
+)
